@@ -583,7 +583,7 @@ def needsPoll (c : ModCfg) : Bool := c.poll || !(writeDict c).isEmpty
 
 structure LI (W : List ModCfg) (st : St) : Prop where
   knownW : ∀ k ∈ st.known, k ∈ W
-  mcfgW : ∀ x ∈ st.mcfg, (∃ k ∈ W, Sim x k) ∨ (∃ p ∈ st.ioDict, x = autoIo p.2)
+  mcfgW : ∀ x ∈ st.mcfg, (∃ k ∈ W, Sim x k ∧ k.params.any paramRejected = false) ∨ (∃ p ∈ st.ioDict, x = autoIo p.2)
   names : ∀ n, n ∈ st.modules ↔ ∃ x ∈ st.mcfg, x.name = n
   initedMods : ∀ m ∈ st.inited, m ∈ st.modules
   reg : ∀ m ∈ st.inited, m ∉ st.failed → needsPoll (cfgOf st m) = true → ∃ t ∈ st.modules, (t, m) ∈ st.groups
@@ -634,7 +634,7 @@ theorem sim_setIo (c : ModCfg) (io : Name) : Sim (setIo c io) c := ⟨rfl, rfl, 
 
 /-- a new module object (and what else may have been appended to the tables) -/
 theorem li_addModule {W : List ModCfg} {st : St} (h : LI W st) (x : ModCfg)
-    (hx : (∃ k ∈ W, Sim x k) ∨ (∃ p ∈ st.ioDict, x = autoIo p.2)) : LI W (addModule st x) := by
+    (hx : (∃ k ∈ W, Sim x k ∧ k.params.any paramRejected = false) ∨ (∃ p ∈ st.ioDict, x = autoIo p.2)) : LI W (addModule st x) := by
   have hmods : ∀ n, n ∈ (addModule st x).modules ↔ n ∈ st.modules ∨ n = x.name := by
     intro n
     simp only [addModule]
@@ -707,8 +707,13 @@ theorem li_getModuleInstance {W : List ModCfg} {st : St} (h : LI W st) (name : N
           refine ⟨rfl, by intro h; simp [addErr] at h, fun _ h => h, ⟨[], by simp [addErr]⟩, ⟨[], by simp [addErr]⟩,
             ⟨[], by simp [addErr]⟩, ?_⟩
           intro _ h; simp [addErr] at h) rfl rfl rfl rfl rfl
-      · have key := li_hasIoCreate h c
-        exact li_addModule key.1 _ (Or.inl ⟨c, hcW, key.2⟩)
+      · rename_i hcond
+        have hrej : c.params.any paramRejected = false := by
+          cases hr : c.params.any paramRejected with
+          | false => rfl
+          | true => exact absurd (by simp [hr]) hcond
+        have key := li_hasIoCreate h c
+        exact li_addModule key.1 _ (Or.inl ⟨c, hcW, key.2, hrej⟩)
 
 def GSpecL (W : List ModCfg) (rec : St → Name → St × Res) : Prop :=
   ∀ st name, LI W st → LI W (rec st name).1 ∧ ∀ m, (rec st name).2 = Res.ok m → m ∈ (rec st name).1.modules
@@ -1061,7 +1066,7 @@ theorem li_createOne (cfg : Cfg) (hsp : StaticPinatas cfg) (fuel : Nat) (c : Mod
             have hcf : cfgOf s2 m = cfgOf sI m := cfgOf_stable e2.mcfg m ((lI.names m).mp hmI)
             have hx := cfgOf_mem ((l2.names m).mp (e2.mods m hmI))
             have hcls : (cfgOf s2 m).cls = Cls.pinata := by rw [hcf]; simpa using hp
-            rcases l2.mcfgW _ hx.1 with ⟨k, hk, hsim⟩ | ⟨p, _, hauto⟩
+            rcases l2.mcfgW _ hx.1 with ⟨k, hk, hsim, -⟩ | ⟨p, _, hauto⟩
             · have hkc : k.cls = Cls.pinata := by rw [← hsim.2.1]; exact hcls
               have hkm : k ∈ cfg.mods := by
                 rcases List.mem_append.mp hk with h | h
@@ -1127,22 +1132,25 @@ theorem linked_core (cfg : Cfg) (hsp : StaticPinatas cfg) (fuel : Nat) (herr : (
     (hoof : (core cfg fuel).oof = false) (hnd : (names (allMods cfg (core cfg fuel).ioDict)).Nodup) :
     ∀ c ∈ allMods cfg (core cfg fuel).ioDict, c.name ∈ (core cfg fuel).modules →
       Sim (cfgOf (core cfg fuel) c.name) c ∧
-      (needsPoll c = true → ∃ t ∈ threadsOf (core cfg fuel), c.name ∈ members (core cfg fuel) t) := by
+      (needsPoll c = true → ∃ t ∈ threadsOf (core cfg fuel), c.name ∈ members (core cfg fuel) t) ∧
+      c.params.any paramRejected = false := by
   intro c hc hm
   have li := li_core cfg hsp fuel
   have hx := cfgOf_mem ((li.names c.name).mp hm)
   have hnd' : ((allMods cfg (core cfg fuel).ioDict).map (·.name)).Nodup := hnd
-  have hsim : Sim (cfgOf (core cfg fuel) c.name) c := by
-    rcases li.mcfgW _ hx.1 with ⟨k, hk, hsim⟩ | ⟨p, hp, hauto⟩
+  have hsim : Sim (cfgOf (core cfg fuel) c.name) c ∧ c.params.any paramRejected = false := by
+    rcases li.mcfgW _ hx.1 with ⟨k, hk, hsim, hrej⟩ | ⟨p, hp, hauto⟩
     · have hk' : k ∈ allMods cfg (core cfg fuel).ioDict := by rw [allMods_eq]; exact List.mem_append_left _ hk
       have : k = c := nodup_map_inj (·.name) _ hnd' k hk' c hc (by rw [← hsim.1]; exact hx.2)
-      subst this; exact hsim
+      subst this; exact ⟨hsim, hrej⟩
     · have hk' : autoIo p.2 ∈ allMods cfg (core cfg fuel).ioDict := by
         rw [allMods_eq]; exact List.mem_append_right _ (List.mem_map.mpr ⟨p, hp, rfl⟩)
       have : autoIo p.2 = c := nodup_map_inj (·.name) _ hnd' _ hk' c hc (by rw [← hauto]; exact hx.2)
       rw [hauto, this]
-      exact ⟨rfl, rfl, rfl, rfl, rfl⟩
-  refine ⟨hsim, ?_⟩
+      refine ⟨⟨rfl, rfl, rfl, rfl, rfl⟩, ?_⟩
+      rw [← this]; rfl
+  obtain ⟨hsim, hrej⟩ := hsim
+  refine ⟨hsim, ?_, hrej⟩
   intro hnp
   have hin := core_all_inited cfg fuel herr hoof c.name hm
   have hnf : c.name ∉ (core cfg fuel).failed := fun h => (top_core cfg fuel).1.failedErr _ h herr
@@ -1184,5 +1192,83 @@ theorem writes_of_params {x c : ModCfg} (h : x.params = c.params) : x.writes = c
 theorem writes_nodup (c : ModCfg) (h : (c.params.map (·.name)).Nodup) : c.writes.Nodup := by
   unfold ModCfg.writes
   exact List.Nodup.sublist (List.Sublist.map _ List.filter_sublist) h
+
+/-! ### every declared module stays known by its name -/
+
+theorem upsert_names {l : List ModCfg} {c x : ModCfg} (hx : x ∈ l) : ∃ y ∈ upsertCfg l c, y.name = x.name := by
+  unfold upsertCfg
+  split
+  · by_cases hn : (x.name == c.name) = true
+    · exact ⟨c, List.mem_map.mpr ⟨x, hx, by simp [hn]⟩, (beq_iff_eq.mp hn).symm⟩
+    · exact ⟨x, List.mem_map.mpr ⟨x, hx, by simp [hn]⟩, rfl⟩
+  · exact ⟨x, List.mem_append_left _ hx, rfl⟩
+
+def KN (mods : List ModCfg) (st : St) : Prop := ∀ c ∈ mods, ∃ k ∈ st.known, k.name = c.name
+
+theorem known_createOne (fuel : Nat) (dyn : List ModCfg) (c : ModCfg) (st : St) :
+    (createOne fuel dyn c st).1.known = st.known ∨ (createOne fuel dyn c st).1.known = upsertCfg st.known c := by
+  unfold createOne
+  split
+  · exact Or.inl rfl
+  · right
+    simp only
+    have e1 := ext_getModuleInstance { st with known := upsertCfg st.known c } c.name
+    cases hI : getModuleInstance { st with known := upsertCfg st.known c } c.name with
+    | mk sI r =>
+      rw [hI] at e1
+      cases r with
+      | none => exact e1.known
+      | raised cls => exact e1.known
+      | ok m =>
+        simp only
+        split
+        · have e2 := ext_getModule fuel sI m
+          cases hG : getModule fuel sI m with
+          | mk s2 r2 =>
+            rw [hG] at e2
+            exact e2.known.trans e1.known
+        · exact e1.known
+
+theorem kn_createLoop (mods dyn : List ModCfg) (gfuel : Nat) : ∀ (n : Nat) (todos : List ModCfg) (st : St),
+    KN mods st → KN mods (createLoop dyn gfuel n todos st) := by
+  intro n
+  induction n with
+  | zero =>
+    intro todos st h
+    cases todos with
+    | nil => exact h
+    | cons c rest => exact h
+  | succ n ih =>
+    intro todos st h
+    cases todos with
+    | nil => exact h
+    | cons c rest =>
+      simp only [createLoop]
+      have hk := known_createOne gfuel dyn c st
+      cases hC : createOne gfuel dyn c st with
+      | mk s1 more =>
+        rw [hC] at hk
+        apply ih
+        intro x hx
+        obtain ⟨k, hk', hn⟩ := h x hx
+        rcases hk with hk | hk
+        · exact ⟨k, by rw [hk]; exact hk', hn⟩
+        · obtain ⟨y, hy, hyn⟩ := upsert_names (c := c) hk'
+          exact ⟨y, by rw [hk]; exact hy, hyn.trans hn⟩
+
+/-- a declared module of a node that came up exists in it -/
+theorem declared_created (cfg : Cfg) (fuel : Nat) (herr : (core cfg fuel).errors = [])
+    (hoof : (core cfg fuel).oof = false) (c : ModCfg) (hc : c ∈ cfg.mods) : c.name ∈ (core cfg fuel).modules := by
+  have kn : KN cfg.mods (created cfg fuel) :=
+    kn_createLoop cfg.mods cfg.dyn fuel fuel cfg.mods _ (fun x hx => ⟨x, hx, rfl⟩)
+  obtain ⟨k, hk, hn⟩ := kn c hc
+  have e := ext_created_core cfg fuel
+  rcases kc_created cfg fuel hoof k hk with hm | hne
+  · rw [← hn]; exact e.mods _ hm
+  · exact absurd (e.errs herr) hne
+
+theorem paramWrong_eq (q : PCfg) : paramWrong q = paramRejected q := by
+  unfold paramWrong paramRejected PCfg.value
+  cases q.cfgValue <;> cases q.clsValue <;> cases q.needscfg <;> cases q.cfgBad <;> rfl
 
 end Frappy.Proofs.LifecycleParams
